@@ -1,4 +1,6 @@
 import BSModel.Proofs.Construct
+import BSModel.Proofs.Envelope
+import BSModel.Gen.C06Exc
 /-! # C06 — any `str`/`bytes` input yields a tree or `ParserRejectedMarkup`, never another failure
 
 Property theorems only. Claimed level: PARTIAL. The repository's own logic (pre-parse heuristics, numeric
@@ -69,22 +71,22 @@ theorem retry_by_index {V : Type} (m : Machine V) (R H : List Field) (wf : m.WF 
     (retry m o0 ss).2 = retryResult (retryIndex (ss.map fun s => (attempt m o0 s).2) 0) :=
   retry_by_index_aux m R H wf o0 ss o0 0 (AgreeOff.refl _ _)
 
-/-- Against the live objects (instrumented on every run, `Gen.ConstructTab`): every attribute of the soup or of its
+/-- Against the live objects (instrumented on every run, `Gen.C06.ConstructTab`): every attribute of the soup or of its
     builder that a feed — clean, or poisoned and rejected part-way — assigns or mutates is re-assigned by `reset()`,
     `initialize_soup` or the loop header before the next attempt. This is `Machine.WF.feedFrame` for the real code. -/
 theorem feed_touches_reassigned :
-    ∀ f ∈ Gen.feedTouches, f ∈ Gen.resetAssigns ++ Gen.attemptBuilderAssigns ++ Gen.headerAssigns := by
+    ∀ f ∈ Gen.C06.feedTouches, f ∈ Gen.C06.resetAssigns ++ Gen.C06.attemptBuilderAssigns ++ Gen.C06.headerAssigns := by
   decide +kernel
 
 /-- the loop header assigns exactly the four strategy fields, and `reset()` assigns the parser bookkeeping and the
     root's own linkage (so the table above is not vacuous) -/
 theorem header_and_reset_fields :
-    Gen.headerAssigns = ["markup", "original_encoding", "declared_html_encoding", "contains_replacement_characters"]
+    Gen.C06.headerAssigns = ["markup", "original_encoding", "declared_html_encoding", "contains_replacement_characters"]
     ∧ (∀ f ∈ ["contents", "attrs", "next_element", "next_sibling", "current_data", "currentTag", "tagStack",
               "open_tag_counter", "preserve_whitespace_tag_stack", "string_container_stack", "_most_recent_element",
               "hidden", "_namespaces"],
-        f ∈ Gen.resetAssigns)
-    ∧ Gen.feedTouches ≠ [] := by
+        f ∈ Gen.C06.resetAssigns)
+    ∧ Gen.C06.feedTouches ≠ [] := by
   decide +kernel
 
 /-! non-vacuity: a concrete machine satisfying `WF`, with a rejecting and an accepting strategy -/
@@ -310,28 +312,28 @@ theorem charref_spec (name : PStr) (n : Nat) (h : charrefNumber name = .ok n) :
   simp only
   unfold charrefFrom charrefSpec
   by_cases hn : n < 256
-  · have hle : n ≤ Gen.maxUnicode := by
-      have : (256 : Nat) ≤ Gen.maxUnicode := by decide
+  · have hle : n ≤ Gen.C06.maxUnicode := by
+      have : (256 : Nat) ≤ Gen.C06.maxUnicode := by decide
       omega
     simp only [hn, if_true]
-    cases hc : Gen.cp1252Decode[n]? with
+    cases hc : Gen.C06.cp1252Decode[n]? with
     | none => simp [tryDecode, cp1252, hc, charrefFinish, truthy, hle]
     | some v =>
       cases v with
       | none => simp [tryDecode, cp1252, hc, charrefFinish, truthy, hle]
       | some c => simp [tryDecode, cp1252, hc, charrefFinish, truthy]
   · simp only [hn, if_false]
-    by_cases hle : n ≤ Gen.maxUnicode
+    by_cases hle : n ≤ Gen.C06.maxUnicode
     · simp [charrefFinish, truthy, hle]
     · simp [charrefFinish, truthy, hle]
 
 /-- table fact over the live codec: Windows-1252 differs from the identity only on 128–159, never yields U+0000
     for a non-zero byte, and is defined on all of ASCII and Latin-1's upper half -/
 theorem cp1252_table :
-    Gen.cp1252Decode.length = 256 ∧
-    ∀ n, n < 256 → (n < 128 ∨ 160 ≤ n) → Gen.cp1252Decode[n]? = some (some n) := by
+    Gen.C06.cp1252Decode.length = 256 ∧
+    ∀ n, n < 256 → (n < 128 ∨ 160 ≤ n) → Gen.C06.cp1252Decode[n]? = some (some n) := by
   refine ⟨by decide +kernel, ?_⟩
-  have h : (List.range 256).all (fun n => !(n < 128 || 160 ≤ n) || Gen.cp1252Decode[n]? == some (some n)) = true := by
+  have h : (List.range 256).all (fun n => !(n < 128 || 160 ≤ n) || Gen.C06.cp1252Decode[n]? == some (some n)) = true := by
     decide +kernel
   intro n hn hr
   have := List.all_eq_true.mp h n (List.mem_range.mpr hn)
@@ -341,18 +343,18 @@ theorem cp1252_table :
 
 /-- so a reference to any code point outside 128–159 is that code point, and anything beyond U+10FFFF is U+FFFD -/
 theorem charrefSpec_identity (n : Nat) (h : n < 128 ∨ 160 ≤ n) :
-    charrefSpec n = if n ≤ Gen.maxUnicode then [n] else [0xFFFD] := by
+    charrefSpec n = if n ≤ Gen.C06.maxUnicode then [n] else [0xFFFD] := by
   unfold charrefSpec
   by_cases hn : n < 256
-  · have hle : n ≤ Gen.maxUnicode := by
-      have : (256 : Nat) ≤ Gen.maxUnicode := by decide
+  · have hle : n ≤ Gen.C06.maxUnicode := by
+      have : (256 : Nat) ≤ Gen.C06.maxUnicode := by decide
       omega
     simp [hn, cp1252_table.2 n hn h, hle]
   · simp [hn]
 
 /-- witness on the unrepaired mirror: a decimal reference one digit longer than `sys.int_max_str_digits` -/
 theorem handleCharrefOld_fails_long_decimal :
-    handleCharrefOld none (List.replicate (Gen.intMaxStrDigitsC06 + 1) 57) = .error .valueError := by
+    handleCharrefOld none (List.replicate (Gen.C06.intMaxStrDigitsC06 + 1) 57) = .error .valueError := by
   decide +kernel
 
 /-- witness on the unrepaired mirror: a document encoding whose one-byte decode raises something that is not a
@@ -360,7 +362,7 @@ theorem handleCharrefOld_fails_long_decimal :
 theorem handleCharrefOld_fails_codec :
     handleCharrefOld (some fun _ => .otherError) [49] = .error .unicodeError := by decide
 
-example : handleCharref none (List.replicate (Gen.intMaxStrDigitsC06 + 1) 57) = .ok [0xFFFD] := by decide +kernel
+example : handleCharref none (List.replicate (Gen.C06.intMaxStrDigitsC06 + 1) 57) = .ok [0xFFFD] := by decide +kernel
 example : handleCharref (some fun _ => .otherError) [49] = .ok [1] := by decide
 example : handleCharref none (BS.ofS "x41") = .ok [65] := by decide
 example : handleCharref none (BS.ofS "150") = .ok [0x2013] := by decide
@@ -552,7 +554,7 @@ theorem constructor_old_fails_on_surrogate {V : Type} (m : Machine V) (prep : Ma
     `constructor_old_fails_on_tokenizer_valueerror`) the live constructor of the working tree, run by the translator,
     ends in a tree or `ParserRejectedMarkup` — false of a tree without fixes/C06-*.diff. -/
 theorem live_code_returns_on_witnesses :
-    Gen.liveWitnesses.length = 4 ∧ ∀ p ∈ Gen.liveWitnesses, p.2 = true := by decide
+    Gen.C06.liveWitnesses.length = 4 ∧ ∀ p ∈ Gen.C06.liveWitnesses, p.2 = true := by decide
 
 /-- non-vacuity of `constructor_outcome`: a parser satisfying both hypotheses that rejects (tokenizer
     `AssertionError`) and one that accepts -/
@@ -576,5 +578,214 @@ example : (construct ⟨fun _ => [], fun _ => [], soupFeed rejecting, []⟩ heur
       = .error .parserRejectedMarkup := by decide
 example : (construct ⟨fun _ => [], fun _ => [], soupFeed accepting, []⟩ heuristics
     (prepareMarkup (fun _ => ⟨none, none, false⟩) (fun _ => none)) (fun _ => ()) (.str [60])).2 = .ok () := by decide
+
+/-! ## the error-conversion envelope: every call path, every exception class
+
+`Model/Envelope.lean` makes every operation below the constructor that can raise a *primitive* that may raise any
+class (`Prims`), and every `try/except` of the repository a clause (`Code`). `Recorded` lists, per primitive, the
+exact classes it has been observed to raise — the trusted residue, measured by the harness on every run. -/
+
+/-- **No exception other than `ParserRejectedMarkup` escapes the constructor** — for every variant of the clauses
+    `code`, every list of recorded kinds `r` the clauses cover (`Covers`, decidable), every behaviour `P` of the
+    primitives within `r` (UnicodeDammit/EncodingDetector, codecs, `prepare_markup`'s generator, `reset`, the parser
+    object, both tokenizer phases `feed`/`close`, every `handle_*` callback, `int()`/`chr()`/one-byte decodes, the
+    end-of-input flush), every object frame, every initial object and every `str`/`bytes` markup. -/
+theorem envelope {V : Type} (code : Code) (r : Recorded) (hcov : Covers code r = true) (P : Prims V)
+    (hP : P.Within r) (F : Frame V) (o0 : Obj V) (mk : Markup) :
+    (constructE code P F o0 mk).2 = .ok () ∨ (constructE code P F o0 mk).2 = .error .parserRejectedMarkup := by
+  have hc := coversP_of_covers code r hcov
+  unfold constructE construct
+  cases hh : heuristicsE code P mk with
+  | error e =>
+    right
+    simp only
+    rw [heuristicsE_fine code r P hc hP mk e hh]
+  | ok w =>
+    simp only
+    cases hp : prepareMarkupE code P mk with
+    | error e =>
+      right
+      simp only
+      rw [prepareMarkupE_fine code r P hc hP mk e hp]
+    | ok ss =>
+      simp only
+      exact retry_outcome_prm (machineE code P F) (fun o => soupFeedE_outcome code r P hc hP o) o0 ss
+
+/-- the clauses of the working tree cover everything CPython has been recorded to raise … -/
+theorem live_covers_recorded : Covers Code.live Gen.C06.recorded = true := by decide
+
+/-- … so for the repaired code the envelope holds outright, the residue being exactly `P.Within Gen.C06.recorded` -/
+theorem envelope_live {V : Type} (P : Prims V) (hP : P.Within Gen.C06.recorded) (F : Frame V) (o0 : Obj V) (mk : Markup) :
+    (constructE Code.live P F o0 mk).2 = .ok () ∨
+    (constructE Code.live P F o0 mk).2 = .error .parserRejectedMarkup :=
+  envelope Code.live _ live_covers_recorded P hP F o0 mk
+
+/-- … whereas 4.13.0 as shipped does not cover them (three of the four C06 defects are holes in clauses; the fourth is
+    the strict `encode`) -/
+theorem v4130_does_not_cover : Covers Code.v4130 Gen.C06.recorded = false := by decide
+
+/-- non-vacuity of `envelope_live`: the quiet behaviour, and the same with the tokenizer giving up in `close()`, are
+    within the recorded kinds; one yields a tree, the other `ParserRejectedMarkup` -/
+theorem quiet_within : Prims.quiet.Within Gen.C06.recorded := by
+  refine ⟨?_, ?_, ?_, ?_, ?_, ?_, ?_, ?_, ?_, ?_, ?_, ?_, ?_, ?_, ?_, ?_, ?_, ?_⟩ <;>
+    simp only [Prims.quiet, raisesOnly, raisesOnlyO]
+  · intro w c h; cases h
+  · intro x hx c h; simp at hx; rcases hx with rfl | rfl <;> cases h
+  · intro s c h; cases h
+  · intro c b e h; cases h
+  · intro c h; cases h
+  · intro c h; cases h
+  · intro c h; cases h
+  · intro c h; cases h
+  · intro s c h; cases h
+  · intro s c h; cases h
+  · intro s c h
+    unfold pyIntDec at h
+    split at h
+    · injection h with h; subst h; decide
+    · split at h
+      · injection h with h; subst h; decide
+      · cases h
+  · intro s c h
+    unfold pyIntHex at h
+    simp only at h
+    split at h
+    · split at h
+      · injection h with h; subst h; decide
+      · cases h
+    · injection h with h; subst h; decide
+  · intro e n c h; cases h
+  · intro n c h
+    split at h
+    · cases h
+    · injection h with h; subst h; decide
+  · intro n c h
+    split at h
+    · cases h
+    · injection h with h; subst h; decide
+  · intro d o c h; cases h
+  · intro k o c h; cases h
+  · intro o c h; cases h
+
+example : (constructE Code.live Prims.quiet Frame.unit (fun _ => ()) (.bytes [60, 112, 62])).2 = .ok () := by decide
+example : predict Code.live .tokClose .assertionError = .prm := by decide
+example : predict Code.v4130 .intOf .valueError = .escapes .valueError := by decide
+example : predict Code.v4130 .tokFeed .valueError = .escapes .valueError := by decide
+example : predict Code.v4130 .dec1 .unicodeError = .escapes .unicodeError := by decide
+
+/-! ### the class hierarchy and the clauses, against the live code -/
+
+/-- `Err.sup` is the `__mro__` of the live classes (builtins and bs4.exceptions), for every named class -/
+theorem mro_table :
+    (∀ row ∈ Gen.C06.excMro, row.1.sup = row.2) ∧ Err.named.all (fun e => Gen.C06.excMro.any (·.1 == e)) = true := by
+  decide +kernel
+
+/-- The whole primitive-level injection matrix of the LIVE constructor (translator: every one of the 16 primitives made
+    to raise every named class and a representative of each open family, 528 runs) equals the model's prediction — the
+    clauses, their nesting, what is outside every `try`, and PEP 479 at the two generator boundaries. -/
+theorem injection_table :
+    (∀ row ∈ Gen.C06.injections, predict Code.live row.1 row.2.1 = row.2.2) ∧
+    Point.all.all (fun pt => (Err.named ++ [Err.other 0, Err.otherBase 0]).all fun e =>
+      Gen.C06.injections.any fun row => row.1 == pt && row.2.1 == e) = true := by
+  decide +kernel
+
+/-! ### tightness: what each layer lets through, for every class -/
+
+/-- `_codec` absorbs exactly its clause; anything else leaves `find_codec` -/
+theorem lookup_escapes {V : Type} (code : Code) (P : Prims V) (s : Nat) (c : Err) (h : P.lookup s = .error c) :
+    tryLookup code P s = if catches code.codecLookup c then .ok false else .error c := by
+  unfold tryLookup; rw [h]
+
+/-- `_convert_from` absorbs exactly its clause around `str(...)`; anything else leaves it -/
+theorem decode_escapes {V : Type} (code : Code) (P : Prims V) (st : DammitState) (e k : Nat) (b : Bool) (x : Err)
+    (hf : findCodecE code P e = .ok (some k)) (ht : st.tried.contains (k, b) = false) (hd : P.decode k b = .error x)
+    (hx : catches code.convertFrom x = false) : convertFromE code P st e b = .error x := by
+  unfold convertFromE
+  rw [hf]; simp only [ht, Bool.false_eq_true, if_false, hd, hx]
+
+/-- whatever leaves UnicodeDammit or the `declared_html_encoding` property leaves the constructor (after PEP 479): the
+    `for` header is outside every `try` -/
+theorem generator_escapes {V : Type} (code : Code) (P : Prims V) (F : Frame V) (o0 : Obj V) (b : Bytes) (c : Err)
+    (hb : b ≠ []) (hh : ∃ w, heuristicsE code P (.bytes b) = .ok w) (hd : dammitE code P = .error c) :
+    (constructE code P F o0 (.bytes b)).2 = .error (pep479 c) := by
+  obtain ⟨w, hw⟩ := hh
+  unfold constructE construct
+  rw [hw]
+  simp only [prepareMarkupE]
+  have : b.isEmpty = false := by cases b <;> simp_all
+  simp [this, hd]
+
+/-- `feed` converts exactly its clause -/
+theorem feed_converts {V : Type} (code : Code) (o : Obj V) (e : Err) :
+    wrapFeed code (o, some e) = if catches code.feed e then (o, some .parserRejectedMarkup) else (o, some e) := rfl
+
+/-- a class raised by the tokenizer in `feed()` that neither `feed`'s clause nor the constructor's catches ends the
+    attempt as itself -/
+theorem tokenizer_escapes {V : Type} (code : Code) (P : Prims V) (o : Obj V) (e : Err)
+    (hr : P.resetAll = .ok ()) (hn : P.newParser = .ok ())
+    (hev : (handleEventsE code P (P.origOf o) (P.tokFeed (P.markupOf o)).1 o).2 = none)
+    (ht : (P.tokFeed (P.markupOf o)).2 = some e) (h1 : catches code.feed e = false) (h2 : catches code.ctor e = false) :
+    (soupFeedE code P o).2 = .raise e := by
+  unfold soupFeedE builderFeedE runPhase
+  rw [hr, hn]
+  simp only
+  generalize handleEventsE code P (P.origOf o) (P.tokFeed (P.markupOf o)).1 o = x at hev
+  obtain ⟨o', e'⟩ := x
+  simp only at hev
+  subst hev
+  simp only [ht, wrapFeed, h1, Bool.false_eq_true, if_false, h2]
+
+/-- with `close()` outside the `try` (seeded change C06-r2m1) an `AssertionError` of the second phase escapes -/
+theorem close_must_be_guarded :
+    predict { Code.live with closeGuarded := false } .tokClose .assertionError = .escapes .assertionError := by decide
+
+/-- with a narrower clause in `_convert_from` (seeded change C06-m2) a `ValueError` of `str()` escapes -/
+theorem convert_clause_must_be_broad :
+    predict { Code.live with convertFrom := [.unicodeError, .lookupError] } .decode .valueError = .escapes .valueError := by
+  decide
+
+/-! ### the object when the constructor returns -/
+
+/-- Whenever the constructor's loop returns normally, for ANY list of strategies: the list splits into rejected
+    strategies, the accepted one and a rest never looked at, and the object is exactly a complete clean parse of the
+    accepted strategy from the initial object (`endOfInput` run, `markup`/`builder.soup` cleared) — never half-built,
+    nothing of the rejected attempts in it. -/
+theorem retry_ok_state {V : Type} (m : Machine V) (R H : List Field) (wf : m.WF R H) (o0 : Obj V) (ss : List Strategy)
+    (h : (retry m o0 ss).2 = .ok ()) :
+    ∃ pre s post, ss = pre ++ s :: post ∧ (∀ r ∈ pre, (attempt m o0 r).2 = .reject) ∧
+      (attempt m o0 s).2 = .accept ∧ retry m o0 ss = (assignAll m.finish (attempt m o0 s).1, .ok ()) := by
+  -- find the first strategy whose clean attempt does not reject
+  have key : ∀ (rest pre : List Strategy), ss = pre ++ rest → (∀ r ∈ pre, (attempt m o0 r).2 = .reject) →
+      ∃ pre' s post, ss = pre' ++ s :: post ∧ (∀ r ∈ pre', (attempt m o0 r).2 = .reject) ∧
+        (attempt m o0 s).2 = .accept := by
+    intro rest
+    induction rest with
+    | nil =>
+      intro pre hs hpre
+      exfalso
+      rw [List.append_nil] at hs
+      subst hs
+      have := retry_all_reject m R H wf o0 _ hpre
+      rw [this] at h; cases h
+    | cons s rest ih =>
+      intro pre hs hpre
+      cases hso : (attempt m o0 s).2 with
+      | accept => exact ⟨pre, s, rest, hs, hpre, hso⟩
+      | reject =>
+        apply ih (pre ++ [s]) (by rw [hs]; simp)
+        intro r hr
+        simp only [List.mem_append, List.mem_singleton] at hr
+        rcases hr with hr | rfl
+        · exact hpre r hr
+        · exact hso
+      | raise e =>
+        exfalso
+        have := retry_raise_propagates m R H wf o0 pre s rest e hpre hso
+        rw [← hs, h] at this; cases this
+  obtain ⟨pre, s, post, hs, hpre, hacc⟩ := key ss [] rfl (by simp)
+  exact ⟨pre, s, post, hs, hpre, hacc, by rw [hs]; exact retry_first_accept m R H wf o0 pre s post hpre hacc⟩
+
+example : ∃ pre s post, [({ markup := [] } : Strategy), { markup := [1, 2] }] = pre ++ s :: post ∧
+    (attempt demo (fun _ => 99) s).2 = .accept := ⟨[{ markup := [] }], { markup := [1, 2] }, [], rfl, by decide⟩
 
 end BS.Props.C06
